@@ -142,6 +142,14 @@ package session
 //@   modifies s.state, everLogged, trigN, trigAt, routerStopped, timersStarted
 //@   epilogue everLogged = old(everLogged) || state == SuccessfulLogged
 //@   ensures[C06,C07,C15,C09] s.state == state && everLogged == (old(everLogged) || state == SuccessfulLogged)
+//@   call Trigger#1:
+//@     assert[C15,C09,C06] @listeners_unlocked !held(s.stateMu)
+//@   call Trigger#2:
+//@     assert[C15,C09,C06] @listeners_unlocked !held(s.stateMu)
+//@   call Trigger#3:
+//@     assert[C15,C09,C06] @listeners_unlocked !held(s.stateMu)
+//@   call Trigger#4:
+//@     assert[C15,C09,C06] @listeners_unlocked !held(s.stateMu)
 //@   witness eventful = isEventTriggerRequired && (state == SuccessfulLogged || state == WaitingLogoutAnswer || state == ReceivedLogoutAnswer || state == Disconnect)
 //@   ensures[C09,C15] @event imp(eventful, trigN == old(trigN) + 1 && trigAt == upd(old(trigAt), old(trigN), eventOf(state)))
 //@   ensures[C09,C15] @noevent imp(!eventful, trigN == old(trigN) && trigAt == old(trigAt))
